@@ -63,6 +63,14 @@ Theorem C11_machines_agree : forall dp path,
 Proof. exact machines_agree. Qed.
 Print Assumptions C11_machines_agree.
 
+(* ... and for the vertex lists handed to polyline / spline: GCodeCore.to_absolute_list ([to_absolute_list] of
+   model/Builder.v: relative points accumulate, absolute points replace the coordinates they give).  The same logical
+   vertices -- any subset of axes each -- phrased as successive offsets in relative mode and as they are in absolute
+   mode are turned into the same absolute vertices, one by one. *)
+Theorem C11_vertex_lists_agree : forall sa sr vs, same_but_mode sa sr ->
+  Forall2 peq (to_absolute_list sr (offsets (pos sa) vs)) (to_absolute_list sa vs).
+Proof. exact to_absolute_list_agree. Qed.
+
 (* non-vacuity: a partial waypoint, a shape, a rapid; the relative program really uses offsets *)
 Example C11_path_nonvacuous :
   let path := [LMove Linear (mkpt (Some 10) (Some 4) None); LPath [mkpt (Some 12) (Some 4) (Some 1); mkpt (Some 12) (Some 9) (Some 1)];
